@@ -1100,7 +1100,7 @@ class CodeGen:
         # a type without any declared input gets a default operand here, inside the prelude, so
         # that a reference can always be resolved to an *operand* (never to an inline allocation)
         for t, ctor in (("I", "PrivVal(0)"), ("B", "PrivValBool(0)"), ("F", "PrivValFxp(0.0)")):
-            if self.counts[t] == 0:
+            if self.counts[t] == 0 and not self.plan["cfg"].get("no_default_operands"):
                 nm = self.new_var(t)
                 self.emit("%s = %s" % (nm, ctor))
                 self.origin[nm] = {"op": "input", "kind": "priv", "t": t}
